@@ -9,7 +9,9 @@ use std::sync::{Arc, Mutex};
 use std::time::Duration;
 #[cfg(feature = "async_flavour")]
 use stretto::{AsyncCache, AsyncCacheBuilder};
-use stretto::{Cache, CacheBuilder, CacheCallback, Coster, Item, KeyBuilder, UpdateValidator};
+#[cfg(feature = "sync_flavour")]
+use stretto::{Cache, CacheBuilder};
+use stretto::{CacheCallback, Coster, Item, KeyBuilder, UpdateValidator};
 use stretto_sim_rt::obs::Obs;
 use stretto_sim_rt::rt;
 
@@ -461,6 +463,7 @@ fn obs_sink(o: Obs) {
 // One API over both flavours
 // ------------------------------------------------------------------------------------------
 
+#[cfg(feature = "sync_flavour")]
 pub type SyncC = Cache<u64, Val, HKb, HCoster, HValidator, HCallback, SeedState>;
 #[cfg(feature = "async_flavour")]
 pub type AsyncC = AsyncCache<u64, Val, HKb, HCoster, HValidator, HCallback, SeedState>;
@@ -637,6 +640,7 @@ fn hold_points(n: u32) {
     }
 }
 
+#[cfg(feature = "sync_flavour")]
 mod sync_impl {
     use super::*;
     type SelfTy = SyncC;
@@ -1011,6 +1015,7 @@ macro_rules! typed_api {
 
 macro_rules! typed_int {
     ($sname:ident, $aname:ident, $t:ty) => {
+        #[cfg(feature = "sync_flavour")]
         typed_api!($sname, Cache, CacheBuilder, $t, stretto::TransparentKeyBuilder<$t>, stretto::TransparentKeyBuilder::<$t>::default(), |k: u64| k as $t, |k| k, [], |b: CacheBuilder<$t, Val, stretto::TransparentKeyBuilder<$t>, HCoster, HValidator, HCallback, SeedState>| b.finalize());
         #[cfg(feature = "async_flavour")]
         typed_api!($aname, AsyncCache, AsyncCacheBuilder, $t, stretto::TransparentKeyBuilder<$t>, stretto::TransparentKeyBuilder::<$t>::default(), |k: u64| k as $t, |k| k, [async], |b: AsyncCacheBuilder<$t, Val, stretto::TransparentKeyBuilder<$t>, HCoster, HValidator, HCallback, SeedState>| b.finalize(async_spawner));
@@ -1055,12 +1060,15 @@ fn borrow_arc(k: &std::sync::Arc<String>) -> &String {
     k
 }
 // thin-pointer key types (one machine word) looked up through the pointee
+#[cfg(feature = "sync_flavour")]
 typed_api!(TBoxS, Cache, CacheBuilder, Box<String>, stretto::DefaultKeyBuilder<Box<String>>, stretto::DefaultKeyBuilder::<Box<String>>::default(), box_key, borrow_box, [], |b: CacheBuilder<Box<String>, Val, stretto::DefaultKeyBuilder<Box<String>>, HCoster, HValidator, HCallback, SeedState>| b.finalize());
 #[cfg(feature = "async_flavour")]
 typed_api!(TBoxA, AsyncCache, AsyncCacheBuilder, Box<String>, stretto::DefaultKeyBuilder<Box<String>>, stretto::DefaultKeyBuilder::<Box<String>>::default(), box_key, borrow_box, [async], |b: AsyncCacheBuilder<Box<String>, Val, stretto::DefaultKeyBuilder<Box<String>>, HCoster, HValidator, HCallback, SeedState>| b.finalize(async_spawner));
+#[cfg(feature = "sync_flavour")]
 typed_api!(TArcS, Cache, CacheBuilder, std::sync::Arc<String>, stretto::DefaultKeyBuilder<std::sync::Arc<String>>, stretto::DefaultKeyBuilder::<std::sync::Arc<String>>::default(), arc_key, borrow_arc, [], |b: CacheBuilder<std::sync::Arc<String>, Val, stretto::DefaultKeyBuilder<std::sync::Arc<String>>, HCoster, HValidator, HCallback, SeedState>| b.finalize());
 #[cfg(feature = "async_flavour")]
 typed_api!(TArcA, AsyncCache, AsyncCacheBuilder, std::sync::Arc<String>, stretto::DefaultKeyBuilder<std::sync::Arc<String>>, stretto::DefaultKeyBuilder::<std::sync::Arc<String>>::default(), arc_key, borrow_arc, [async], |b: AsyncCacheBuilder<std::sync::Arc<String>, Val, stretto::DefaultKeyBuilder<std::sync::Arc<String>>, HCoster, HValidator, HCallback, SeedState>| b.finalize(async_spawner));
+#[cfg(feature = "sync_flavour")]
 typed_api!(TStrS, Cache, CacheBuilder, String, stretto::DefaultKeyBuilder<String>, stretto::DefaultKeyBuilder::<String>::default(), str_key, borrow_str, [], |b: CacheBuilder<String, Val, stretto::DefaultKeyBuilder<String>, HCoster, HValidator, HCallback, SeedState>| b.finalize());
 #[cfg(feature = "async_flavour")]
 typed_api!(TStrA, AsyncCache, AsyncCacheBuilder, String, stretto::DefaultKeyBuilder<String>, stretto::DefaultKeyBuilder::<String>::default(), str_key, borrow_str, [async], |b: AsyncCacheBuilder<String, Val, stretto::DefaultKeyBuilder<String>, HCoster, HValidator, HCallback, SeedState>| b.finalize(async_spawner));
@@ -1071,42 +1079,55 @@ fn build_typed(cfg: &Cfg, ty: &str, cb: HCallback) -> Result<Box<dyn Api>, Strin
     stretto_sim_rt::local::reset();
     MASK_CONFLICT.store(matches!(ty, "string" | "boxstr" | "arcstr"), Ordering::SeqCst);
     match (ty, s) {
+        #[cfg(feature = "sync_flavour")]
         ("i8", true) => TI8s::build(cfg, cb),
         #[cfg(feature = "async_flavour")]
         ("i8", false) => TI8a::build(cfg, cb),
+        #[cfg(feature = "sync_flavour")]
         ("i16", true) => TI16s::build(cfg, cb),
         #[cfg(feature = "async_flavour")]
         ("i16", false) => TI16a::build(cfg, cb),
+        #[cfg(feature = "sync_flavour")]
         ("i32", true) => TI32s::build(cfg, cb),
         #[cfg(feature = "async_flavour")]
         ("i32", false) => TI32a::build(cfg, cb),
+        #[cfg(feature = "sync_flavour")]
         ("i64", true) => TI64s::build(cfg, cb),
         #[cfg(feature = "async_flavour")]
         ("i64", false) => TI64a::build(cfg, cb),
+        #[cfg(feature = "sync_flavour")]
         ("isize", true) => TIszs::build(cfg, cb),
         #[cfg(feature = "async_flavour")]
         ("isize", false) => TIsza::build(cfg, cb),
+        #[cfg(feature = "sync_flavour")]
         ("u8", true) => TU8s::build(cfg, cb),
         #[cfg(feature = "async_flavour")]
         ("u8", false) => TU8a::build(cfg, cb),
+        #[cfg(feature = "sync_flavour")]
         ("u16", true) => TU16s::build(cfg, cb),
         #[cfg(feature = "async_flavour")]
         ("u16", false) => TU16a::build(cfg, cb),
+        #[cfg(feature = "sync_flavour")]
         ("u32", true) => TU32s::build(cfg, cb),
         #[cfg(feature = "async_flavour")]
         ("u32", false) => TU32a::build(cfg, cb),
+        #[cfg(feature = "sync_flavour")]
         ("u64", true) => TU64s::build(cfg, cb),
         #[cfg(feature = "async_flavour")]
         ("u64", false) => TU64a::build(cfg, cb),
+        #[cfg(feature = "sync_flavour")]
         ("usize", true) => TUszs::build(cfg, cb),
         #[cfg(feature = "async_flavour")]
         ("usize", false) => TUsza::build(cfg, cb),
+        #[cfg(feature = "sync_flavour")]
         ("string", true) => TStrS::build(cfg, cb),
         #[cfg(feature = "async_flavour")]
         ("string", false) => TStrA::build(cfg, cb),
+        #[cfg(feature = "sync_flavour")]
         ("boxstr", true) => TBoxS::build(cfg, cb),
         #[cfg(feature = "async_flavour")]
         ("boxstr", false) => TBoxA::build(cfg, cb),
+        #[cfg(feature = "sync_flavour")]
         ("arcstr", true) => TArcS::build(cfg, cb),
         #[cfg(feature = "async_flavour")]
         ("arcstr", false) => TArcA::build(cfg, cb),
@@ -1222,6 +1243,7 @@ pub fn build(cfg: &Cfg) -> Result<Box<dyn Api>, String> {
         }};
     }
     KB_BUILD_KEY_ONLY.store(cfg.kb_build_key_only, Ordering::SeqCst);
+    #[cfg(feature = "sync_flavour")]
     if cfg.decoy {
         // a cache of ANOTHER value type is created first (and stays alive): state that depends on
         // type parameters must not leak from one instantiation of the generic code into another
@@ -1239,7 +1261,10 @@ pub fn build(cfg: &Cfg) -> Result<Box<dyn Api>, String> {
     DECOY_N.store(0, Ordering::SeqCst);
     *DECOY.lock().unwrap_or_else(|e| e.into_inner()) = None;
     let main: Result<Box<dyn Api>, String> = match cfg.flavor {
+        #[cfg(feature = "sync_flavour")]
         Flavor::Sync => recipe!(CacheBuilder, Cache).finalize().map(|c| Box::new(c) as Box<dyn Api>).map_err(|e| format!("{:?}", e)),
+        #[cfg(not(feature = "sync_flavour"))]
+        Flavor::Sync => Err("the sync flavour is not part of this build (feature set: async)".to_string()),
         #[cfg(feature = "async_flavour")]
         Flavor::Async | Flavor::AsyncLocal => recipe!(AsyncCacheBuilder, AsyncCache).finalize(async_spawner).map(|c| Box::new(c) as Box<dyn Api>).map_err(|e| format!("{:?}", e)),
         #[cfg(not(feature = "async_flavour"))]
@@ -1256,6 +1281,9 @@ pub fn build(cfg: &Cfg) -> Result<Box<dyn Api>, String> {
 fn build_decoy(cfg: &Cfg) {
     let ms = Duration::from_millis(cfg.cleanup_ms);
     let d: Option<Box<dyn Api>> = match cfg.flavor {
+        #[cfg(not(feature = "sync_flavour"))]
+        Flavor::Sync => None,
+        #[cfg(feature = "sync_flavour")]
         Flavor::Sync => CacheBuilder::<u64, Val, HKb>::new_with_key_builder(1000, 1_000_000, HKb(KeyMode::Transparent))
             .set_buffer_size(64)
             .set_cleanup_duration(ms)
